@@ -50,6 +50,18 @@ package utils
 //@   ensures[size-unchanged] seq: result != nil || !cache.calculateCacheSize ==> cache.currentCacheSize == old(cache.currentCacheSize)
 //@   ensures[refused-unchanged] seq: result != nil ==> old(cache.cache) != nil ==> forall(k, K, (in(k, cache.cache) <==> old(in(k, cache.cache))) && cache.cache[k] == old(cache.cache[k]))
 
+// a new cache is empty and has no size limit (a size limit makes Set refuse writes, see size-gate)
+//@ func NewMemoryCache
+//@   prop C12, C17
+//@   allocates MemoryCache, map
+//@   modifies nothing
+//@   ensures[fresh-unlimited-empty] result != nil && !old(allocated(result)) && result.cache != nil && result.clock == clock && !result.calculateCacheSize && result.calculateSizeFunc == nil && result.currentCacheSize == 0.0 && forall(k, K, !in(k, result.cache))
+
+//@ func (*MemoryCache).WithMaxCacheSize
+//@   prop C12, C17
+//@   modifies cache.calculateCacheSize, cache.calculateSizeFunc, cache.maxCacheSize
+//@   ensures[limited] cache.calculateCacheSize && cache.calculateSizeFunc == calculateSizeFunc && cache.maxCacheSize == maxCacheSize
+
 //@ func (*MemoryCache).Del
 //@   ensures[map-init] cache.cache != nil
 //@   ensures[same-map] seq: old(cache.cache) != nil ==> cache.cache == old(cache.cache)
